@@ -27,7 +27,8 @@ def run(tier, seed):
     vlib.build("traverse")
     d = sub("traverse")
     nworkers = 8
-    sets = [("ex", "all trees {a,b} x depth 2, <= 2 links", []), ("rnd", "random trees <= 12 entries", [])]
+    sets = [("ex", "all trees {a,b} x depth 2, <= 2 links", []), ("rnd", "random trees <= 12 entries", []),
+            ("wide", "one directory of 261 entries + link to it (scale: beyond 255 entries per listing)", [])]
     for st, label, extra in sets:
         try:
             files = vlib.run_workers("traverse", ["--set", st, "--tier", tier, "--seed", str(seed), "--sandbox", os.path.join(d, "sandbox-" + st)] + extra,
@@ -35,7 +36,7 @@ def run(tier, seed):
         except Stall as s:
             vlib.stall_violation(out, s, "traverse:" + st)
             continue
-        chunks = vlib.split_chunks(files, d, st, 6000 if not long else 25000)
+        chunks = vlib.split_chunks(files, d, st, 2 if st == "wide" else (6000 if not long else 25000))
         checked, classes = vlib.tlc_validate("Trace_Traversal", chunks)
         out.absorb("Trace_Traversal", checked, classes, label=label)
         if chunks:
